@@ -33,8 +33,8 @@ from hypothesis import strategies as st
 import nfc.tag
 import nfc.tag.tt4
 
-from vlib import isodep_card, tagdev
-from vlib.engine import Leg, Violation, unexpected
+from vlib import isodep_card, rfcard, simchip, tagdev
+from vlib.engine import HarnessError, Leg, Violation, derive_seed, unexpected
 
 PROPERTY = "C12"
 LEVEL = "fault_enumeration"
@@ -44,6 +44,11 @@ ASSUMPTIONS = [
     "the retry budget is the library's own policy derived from FWI; with "
     "budget 0 (FWI >= 12) every fault may surface as an error",
     "faults are injected only after activation (RATS / ATTRIB)",
+    "legs drivers / drivers-random: the chip receiver models of "
+    "vlib/rfcard.py (RC-S380: InSetProtocol check_crc; PN53x family: RxCRCEn "
+    "of CIU_RxMode; a received frame of less than 3 byte cannot verify as "
+    "CRC-protected and is a CRC error when the check is on, passed as "
+    "received when it is off); host links are fault-free there",
 ]
 
 FAULTS = {"LC": ("timeout", "cmd"), "LR": ("timeout", "rsp"),
@@ -195,11 +200,19 @@ def run(case, ctx):
         raise unexpected(e, "activation-raises")
     if tag is None:
         raise Violation("activation-failed", repr(cfg))
-    dev = clf.device
+    converse(case, ctx, app, tag_sim, tag, clf.device, fwi, FAULTS.get)
+
+
+def converse(case, ctx, app, tag_sim, tag, dev, fwi, fault_of):
+    """the APDU sequence of a case on an activated tag and its oracle.  dev
+    is where the block exchanges happen and faults are injected: it counts
+    them (``exchanges``), takes ``script`` {exchange number: fault} and logs
+    (number, PCD block, PICC block | "ERR:...", phase) in ``xlog`` - the
+    TagDevice, or the RF world behind a real driver (vlib/rfcard.py)."""
     base = dev.exchanges
     script = {}
     for slot, kind in case["script"]:
-        script.setdefault(base + 1 + slot, FAULTS[kind])
+        script.setdefault(base + 1 + slot, fault_of(kind))
     dev.script = script
     n_retry = budget_of(fwi)
     ctx.label("%s budget=%d" % (type(tag).__name__, n_retry))
@@ -389,6 +402,132 @@ def enum_shapes(tier, seed):
                            "nt": "chained"}
 
 
+# ------------------------------------------------ real drivers, RF-level faults
+# The legs above put the card behind an idealised driver that reports every
+# damaged block as TransmissionError.  Here the Type4Tag runs over the REAL
+# drivers on simulated chips (vlib/simchip.py) whose receiver honours the CRC
+# settings the driver programmed (vlib/rfcard.py); the ISO 14443-4 card model
+# is the RF partner and the faults are events on the air that the driver and
+# the chip have to classify.
+DRIVERS_A = ("rcs380", "pn531", "pn532", "pn533", "rcs956", "acr122",
+             "arygonA", "arygonB")
+DRIVERS_B = ("rcs380", "pn532", "pn533", "rcs956", "acr122", "arygonB")
+# final SEL_RES values of a Type 4A target: bit 6 (20h) set, cascade bit clear
+SEL_T4A = [v for v in range(256) if v & 0x24 == 0x20]
+SEL_USUAL = [0x20, 0x20, 0x28, 0x38, 0x60, 0x68]
+# single bytes a receiver may pick up instead of the lost answer: the values
+# that read as a PCB (I-block, chained I-block, R(ACK), R(NAK), S(WTX),
+# S(DESELECT)) with either block number, and others
+NOISE = (0x02, 0x03, 0x12, 0x13, 0xA2, 0xA3, 0xB2, 0xB3, 0xF2, 0xC2, 0x00,
+         0xFF)
+
+
+def rf_fault(kind):
+    return list(kind)
+
+
+def run_driver(case, ctx):
+    drv, cfg = case["driver"], case["cfg"]
+    tech, fsci, fwi = cfg["tech"], cfg["fsci"], cfg["fwi"]
+    app = isodep_card.T4App()
+    tag_sim = ShapedT4Tag(app, tech, fsci, fwi, cfg.get("chunk"),
+                          cfg.get("wtx", 0))
+    dev, link = simchip.build(drv)
+    world = rfcard.attach(drv, link.chip,
+                          rfcard.CardWorld(tag_sim, sel=cfg.get("sel")))
+    clf = simchip.frontend(dev)
+    ctx.label("driver:" + drv)
+    if tech == "A":
+        ctx.label("sel_res:%s" % ("20" if world.sel == 0x20 else "other"))
+    try:
+        target = clf.sense(nfc.clf.RemoteTarget("106" + tech))
+        tag = None if target is None else nfc.tag.activate(clf, target)
+    except Exception as e:
+        raise unexpected(e, "activation-raises")
+    if not isinstance(tag, nfc.tag.tt4.Type4Tag):
+        raise HarnessError("%s: fault-free activation of the simulated Type "
+                           "4%s card gave %r (target %s)" % (drv, tech, tag,
+                                                             target))
+    for f in case["script"]:
+        ctx.label("rf-fault:" + str(f[1][0]) + (
+            str(f[1][1]) if f[1][0] == "cut" else ""))
+    converse(case, ctx, app, tag_sim, tag, world, fwi, rf_fault)
+
+
+DRIVER_CONFIGS = [
+    # one block each way / chained response of full-size blocks (FSD 256)
+    ({"tech": "A", "fsci": 8, "fwi": 4, "chunk": None, "wtx": 0},
+     [(9, 9), (270, 301), (5, 0)]),
+    # small frames, chained both ways, short card blocks
+    ({"tech": "A", "fsci": 2, "fwi": 8, "chunk": 13, "wtx": 0},
+     [(70, 40), (4, 0)]),
+    ({"tech": "B", "fsci": 5, "fwi": 4, "chunk": 29, "wtx": 0},
+     [(130, 70), (12, 1)]),
+    ({"tech": "A", "fsci": 5, "fwi": 9, "chunk": 40, "wtx": 1},
+     [(61, 62), (8, 8)]),
+    ({"tech": "B", "fsci": 8, "fwi": 7, "chunk": None, "wtx": 0},
+     [(300, 260), (10, 10)]),
+]
+
+
+def driver_faults(rng):
+    out = [["lost-cmd"]] + [["cut", k] for k in range(4)]
+    out += [["noise", b] for b in NOISE] + [["noise", rng.randrange(256)]]
+    out += [["crc", rng.randrange(16)], ["flip", rng.randrange(4096)]]
+    return out
+
+
+def enum_drivers(tier, seed):
+    import random
+    quick = tier == "quick"
+    nslots = 8 if quick else 16
+    for ci, (cfg0, apdus) in enumerate(DRIVER_CONFIGS):
+        if quick and ci >= 3:
+            break
+        for drv in (DRIVERS_A if cfg0["tech"] == "A" else DRIVERS_B):
+            rng = random.Random(derive_seed(seed, PROPERTY, "drivers", ci,
+                                            drv))
+            cfg = dict(cfg0)
+            if cfg["tech"] == "A":
+                cfg["sel"] = rng.choice(SEL_USUAL + [rng.choice(SEL_T4A)])
+            base = {"driver": drv, "cfg": cfg, "apdus": apdus}
+            yield dict(base, script=[])
+            for slot in range(nslots):
+                for f in driver_faults(rng):
+                    yield dict(base, script=[[slot, f]])
+
+
+def st_rf_fault():
+    return st.one_of(
+        st.just(["lost-cmd"]),
+        st.integers(0, 3).map(lambda k: ["cut", k]),
+        st.integers(0, 3).map(lambda k: ["cut", k]),
+        st.sampled_from(NOISE).map(lambda b: ["noise", b]),
+        st.integers(0, 255).map(lambda b: ["noise", b]),
+        st.integers(0, 15).map(lambda b: ["crc", b]),
+        st.integers(0, 4095).map(lambda b: ["flip", b]),
+        st.integers(4, 40).map(lambda k: ["cut", k]))
+
+
+@st.composite
+def driver_case(draw):
+    tech = draw(st.sampled_from(["A", "A", "B"]))
+    drv = draw(st.sampled_from(DRIVERS_A if tech == "A" else DRIVERS_B))
+    cfg = {"tech": tech, "fsci": draw(st.integers(0, 8)),
+           "fwi": draw(st.one_of(st.integers(0, 9), st.integers(0, 14))),
+           "chunk": draw(st.one_of(st.none(), st.integers(1, 253),
+                                   st.sampled_from([1, 5, 13, 29]))),
+           "wtx": draw(st.sampled_from([0, 0, 0, 1, 2]))}
+    if tech == "A":
+        cfg["sel"] = draw(st.one_of(st.sampled_from(SEL_USUAL),
+                                    st.sampled_from(SEL_T4A)))
+    apdus = draw(st.lists(apdu_strategy(), min_size=1, max_size=4))
+    script = draw(st.lists(st.tuples(st.one_of(st.integers(0, 12),
+                                               st.integers(0, 60)),
+                                     st_rf_fault()), max_size=5))
+    return {"driver": drv, "cfg": cfg, "apdus": apdus, "script": script}
+
+
 LEGS = [
     Leg("enum2", run=run, enum=enum_scripts, exhaustive=True,
         shards_quick=8, shards_thorough=16,
@@ -420,4 +559,29 @@ LEGS = [
              "response, recoverable faults absorbed, no block + EDC larger "
              "than the announced FSC); non-trivial = the reader had to chain "
              "a command, so the frame size governed the split."),
+    Leg("drivers", run=run_driver, enum=enum_drivers, exhaustive=True,
+        shards_quick=8, shards_thorough=16,
+        rule="the Type4Tag over the REAL drivers (rcs380 and the PN53x family "
+             "pn531 pn532 pn533 rcs956 acr122 arygonA arygonB; Type 4B where "
+             "the driver senses it) on simulated chips whose receiver honours "
+             "the CRC settings the driver programmed, the ISO 14443-4 card "
+             "model as RF partner, activation through the driver's own sense "
+             "+ RATS / ATTRIB: fixed card configurations (3 quick / 5 "
+             "thorough; one-block and chained APDUs both ways, Type 4A with a "
+             "seeded SEL_RES of the 20h family) x every driver x {no fault, "
+             "one RF fault at one of the first 8 (quick) / 16 (thorough) "
+             "block exchanges}; RF faults: command not seen by the card, "
+             "answer frame cut to 0/1/2/3 byte, answer lost and one noise "
+             "byte received (every PCB-like value and a seeded one), one CRC "
+             "bit inverted, one seeded bit of the frame inverted.  Same "
+             "oracle as enum2; non-trivial = a fault hit a chained I-block, "
+             "an R-block or an S(WTX) exchange."),
+    Leg("drivers-random", run=run_driver, gen=lambda tier: driver_case(),
+        quick=800, thorough=20000, shards_quick=4, shards_thorough=16,
+        nt_floor=0.05,
+        rule="as leg drivers with a generated driver x card configuration "
+             "(FSCI 0..8, FWI 0..14, card block size, S(WTX), any SEL_RES "
+             "with bit 6 set) x 1-4 echo APDUs x up to 5 RF faults (as above, "
+             "also cuts to 4..40 byte) anywhere in the first 60 block "
+             "exchanges; non-trivial as above."),
 ]
